@@ -564,12 +564,25 @@ class SymReal(float):
 
 def sym_div(a, b):
     bz = lift_real(b)
-    if z3.is_rational_value(z3.simplify(bz)):
-        if z3.simplify(bz).numerator_as_long() == 0:
+    bs = z3.simplify(bz)
+    if z3.is_rational_value(bs):
+        if bs.numerator_as_long() == 0:
             raise ZeroDivisionError("float division by zero")
     else:
         _fork_zero(bz)
-    return SymReal(lift_real(a) / bz)
+    az = lift_real(a)
+    # (x * d) / d  ->  x   (d != 0 on this path: the fork above); keeps heat-capacity flow rates polynomial
+    an = z3.simplify(az)
+    if z3.is_mul(an) and not z3.is_rational_value(bs):
+        kids = list(an.children())
+        for i, k in enumerate(kids):
+            if k.eq(bs) or z3.simplify(k - bs).eq(z3.RealVal(0)):
+                rest = kids[:i] + kids[i + 1:]
+                out = rest[0]
+                for r in rest[1:]:
+                    out = out * r
+                return SymReal(out)
+    return SymReal(az / bz)
 
 
 # --------------------------------------------------------------------------------------
@@ -701,6 +714,9 @@ def sym_round(x, k):
     if not isinstance(x, SymReal):
         return builtins.round(x, k)
     c = ctx()
+    if getattr(c, "ongrid_digits", None) is not None and k >= c.ongrid_digits:
+        # ONGRID mode (stated assumption of the obligation): every value rounded to >= that many digits is on the grid
+        return x
     f = _F_RND(k)
     r = f(x.z)
     half = z3.RealVal(str(Fraction(5, 10 ** (k + 1))))
